@@ -283,6 +283,12 @@ class Verifier(ExprMixin, StmtMixin, CallMixin, LibMixin, SpecMixin):
             # once something in this function failed, later obligations get a short budget (they are often
             # consequences of the same defect and only cost time); verdicts stay sat/unsat/unknown
             r = solve.prove(st.full_pc(), goal, 2000 if self.degraded else self.timeout_ms, external=not self.degraded)
+            if r["verdict"] == "unknown" and not self.degraded:
+                # a timeout is not a verdict: one patient retry (6x the budget) before the obligation is reported as not discharged,
+                # so that a busy machine does not turn into an alarm
+                r2 = solve.prove(st.full_pc(), goal, (self.timeout_ms or solve.QUICK_MS) * 6, external=True)
+                r2["ms"] += r["ms"]
+                r = r2
             if r["verdict"] != "unsat":
                 self.degraded = True
             o.verdict, o.backend, o.ms = r["verdict"], r["backend"], r["ms"]
